@@ -135,12 +135,13 @@ fn cmd_replay(args: &[String]) -> i32 {
     let v: serde_json::Value = serde_json::from_str(&txt).expect("parse replay file");
     sched::install_quiet_hook();
     match v.get("kind").and_then(|k| k.as_str()) {
-        Some("plan") => {
+        Some("plan") | Some("plan-wide") => {
             let ops = spec::plan_from_json(v.get("ops").unwrap()).expect("ops");
             let prop = v.get("property").and_then(|p| p.as_str()).unwrap_or("");
             let info = spec::PlanInfo::of(&ops);
             let need = obs::Need { debug: true, counters: true, setup_dispose: prop == "C13", sendable: true };
-            let o = obs::observe(&ops, &hsys::Ctx::identity_map(), need);
+            let resmap0: Vec<u8> = if v.get("kind").and_then(|k| k.as_str()) == Some("plan-wide") { v.get("resmap").and_then(|m| m.as_array()).map(|a| a.iter().filter_map(|x| x.as_u64().map(|y| y as u8)).collect()).unwrap_or_else(hsys::Ctx::identity_map) } else { hsys::Ctx::identity_map() };
+            let o = obs::observe(&ops, &resmap0, need);
             println!("plan: {}", spec::plan_short(&ops));
             println!("calls: {:?}", o.calls);
             println!("layout: {}", o.layout.as_ref().map(|l| l.short()).unwrap_or_else(|| "<none>".into()));
@@ -148,7 +149,20 @@ fn cmd_replay(args: &[String]) -> i32 {
             let mut p = inv::Props::from_list(&[prop]);
             p.c10_all = true;
             p.continue_after_reject = true;
-            let viols = inv::check_state(&p, &ops, &info, &o, false);
+            let mut viols = inv::check_state(&p, &ops, &info, &o, false);
+            if viols.is_empty() {
+                // the finding may stem from a run in which a user-supplied pool was attached before the registrations
+                for n in [1usize, 2] {
+                    obs::set_e1_user_pool(Some(n));
+                    let o2 = obs::observe(&ops, &resmap0, need);
+                    obs::set_e1_user_pool(None);
+                    viols = inv::check_state(&p, &ops, &info, &o2, false);
+                    if !viols.is_empty() {
+                        println!("(with a user-supplied pool of {} thread(s) attached before the registrations; layout {})", n, o2.layout.as_ref().map(|l| l.short()).unwrap_or_default());
+                        break;
+                    }
+                }
+            }
             for vi in &viols {
                 println!("REPRODUCED {} {}: {}", vi.prop, vi.sig, vi.msg);
             }
